@@ -15,7 +15,7 @@ EXTENDS Strategy, Json, IOUtils
 MaxPairs == atoi(IOEnv.MAXPAIRS)
 MaxEntries == atoi(IOEnv.MAXENTRIES)
 
-\* four games: names are shared between the players on purpose
+\* five games: names are shared between the players on purpose
 Games == <<
   << [multi |-> << [name |-> "m1", acts |-> <<"a1", "a2">>] >>,
       single |-> << [name |-> "s1", act |-> "only"] >>],
@@ -34,6 +34,11 @@ Games == <<
   << [multi |-> <<>>,
       single |-> << [name |-> "s1", act |-> "only"], [name |-> "s2", act |-> "only"] >>],
      [multi |-> << [name |-> "m1", acts |-> <<"a1", "a2">>] >>,
+      single |-> <<>>] >>,
+  \* one action name at DIFFERENT positions of two infosets of one player (legality is per infoset)
+  << [multi |-> << [name |-> "m1", acts |-> <<"a1", "a2", "a3">>], [name |-> "m2", acts |-> <<"a2", "a1">>] >>,
+      single |-> <<>>],
+     [multi |-> << [name |-> "m1", acts |-> <<"a2", "a3">>] >>,
       single |-> <<>>] >>
 >>
 
@@ -65,7 +70,7 @@ NumPairs == SumSeq([n \in 1..Len(lists[cur]) |-> Len(lists[cur][n].acts)])
 NumEntries == Len(lists[cur])
 
 Init == /\ g \in 1..Len(Games)
-        /\ scale \in IF g \in {3, 4} THEN {"one"}
+        /\ scale \in IF g \in {3, 4, 5} THEN {"one"}
                      ELSE IF Slim THEN {"one", "max"} \cup (IF g = 1 THEN {"near-third"} ELSE {"tiny"})
                      ELSE {"one", "tiny", "huge", "max", "near-half", "near-third"}
         /\ cur \in 1..2
